@@ -32,6 +32,6 @@ package structs
 // unchanged, with its data type, numbered consecutively from 1.
 //@ func cmdForEachDefault$1 [C15]
 //@   check none
-//@   at call forEachInnerLoop#* assert arg0 == p && arg1 == block && arg2 == varName && arg5 == iteration
+//@   at call forEachInnerLoop#* assert arg0 == p && arg1 == block && arg2 == varName && arg5 == old(iteration) + 1
 //@   at call forEachInnerLoop#* assert imp(steps <= 0, arg3 == old(varValue) && arg4 == old(dataType))
 //@   ensures imp(steps <= 0, called("forEachInnerLoop") && iteration == old(iteration) + 1)
